@@ -827,6 +827,10 @@ def gen_C01(rng, tier):
         if int.from_bytes(r[:4], "little") <= len(r):
             cases.append(mbi_case(r))
             count(dist, "hand_written")
+    # iterator histories (new / next / clone in any order, continuing after a caught panic) over well- and ill-formed regions
+    hist = [c for c in gen_C03(random.Random(rng.getrandbits(32)), tier)[0] if c.startswith("iters ")]
+    cases += hist
+    dist["iterator_histories"] = len(hist)
     n = 16000 if tier == "thorough" else 350
     regions = [dirty_padding(r, rng) for r in gen_mbi_regions(rng, n, dist)]
     cases += palette_family(dist)
@@ -986,6 +990,11 @@ def gen_C04(rng, tier):
         tags = [g.custom() if g.r.random() < 0.8 else g.module() for _ in range(nb)] + [getattr(g, k)()]
         cases.append(mbi_case(E.mbi(tags)))
         count(dist, "long_regions")
+    # conformant indexed framebuffers with large palettes (3 * count exceeds 16 bits from 21846 colours on)
+    for n in (300, 21845, 21846, 43691, 65535):
+        pal = [((7 * i) & 0xFF, (i >> 8) & 0xFF, i & 0xFF) for i in range(n)]
+        cases.append(mbi_case(E.mbi([E.t_framebuffer(0xB8000, 1, 2, 3, 8, 0, E.fb_indexed(pal, n), 0), E.t_cmdline("behind")])))
+        count(dist, "large_palettes")
     # all 256 framebuffer type bytes
     for b in range(256):
         cases.append(mbi_case(E.mbi([E.t_framebuffer(0x1000, 1, 2, 3, 8, b, E.fb_rgb(1, 2, 3, 4, 5, 6), 0)])))
@@ -1386,6 +1395,18 @@ def gen_C09(rng, tier):
             t = (E.u16(typ) + E.u16(s % 2) + E.u32(s) + bytes(body))[:n]
             cases.append("hdr " + hx(E.header([t, E.htag(6, 0, b"")])))
             count(dist, "tag_sizes")
+    # find_header: a header at index 0/8/16/64 complete, cut off by the end of the buffer, or declaring more than remains
+    for idx in (0, 8, 16, 64):
+        for cut in (0, 4, 8, 16):
+            for extra_decl in (0, 8):
+                hdrb = bytearray(E.header([E.htag(4, 0, E.u32(1)), E.htag(6, 0, b"")]))
+                if extra_decl:
+                    hdrb[8:12] = E.u32(len(hdrb) + extra_decl)
+                    hdrb[12:16] = E.u32(E.checksum(E.HDR_MAGIC, 0, len(hdrb) + extra_decl))
+                b = bytes(idx) + bytes(hdrb)
+                b = b[:len(b) - cut] if cut else b
+                cases.append("find 0 " + hx(b))
+                count(dist, "find_header")
     # the header-crate structures obtained from a slice (ref_from_slice): declared sizes around the slice length
     for h in (2, 4):
         hs = 16 if h == 4 else 8
